@@ -539,8 +539,8 @@ def classify(f, ctx):
             return None
         fails_off, _ = rerun(False)
         if not fails_off:
-            if case["caching"] and all(x["kind"] == "SET:missing" for x in fails_as_is) and ev["known_deviation"] >= 1 \
-                    and ev["other_deviation"] == 0:
+            if case["caching"] and len(case["kinds"]) >= KF.MIN_VARS_K05 and all(x["kind"] == "SET:missing" for x in fails_as_is) \
+                    and ev["known_deviation"] >= 1 and ev["other_deviation"] == 0:
                 fails_spec, _ = rerun(True, spec_retrieve=True)
                 if not [x for x in fails_spec if "missing" in x["kind"] or x["kind"] == "PARTIAL_ROW_NOT_A_SOLUTION"]:
                     return "K05"
